@@ -89,17 +89,19 @@ func (t *SymbolTable) Index(s string) uint64 {
 }
 
 func (t *SymbolTable) Str(sym String) string {
-	if int(sym) < 1024 {
-		if int(sym) > len(DEFAULT_SYMBOLS)-1 {
+	// sym is a 64 bit unsigned index coming from untrusted tokens: compare it unsigned,
+	// a conversion to int would turn indexes above 2^63 into negative offsets
+	if uint64(sym) < 1024 {
+		if uint64(sym) >= uint64(len(DEFAULT_SYMBOLS)) {
 			return fmt.Sprintf("<invalid symbol %d>", sym)
 		} else {
 			return DEFAULT_SYMBOLS[int(sym)]
 		}
 	}
-	if int(sym)-1024 > len(*t)-1 {
+	if uint64(sym)-1024 >= uint64(len(*t)) {
 		return fmt.Sprintf("<invalid symbol %d>", sym)
 	}
-	return (*t)[int(sym)-1024]
+	return (*t)[int(uint64(sym)-1024)]
 }
 
 func (t *SymbolTable) Var(v Variable) string {
